@@ -148,7 +148,7 @@ func init() {
 		Floor: 50,
 		Bound: func(tier string) string {
 			k, e := coreK(tier)
-			return fmt.Sprintf("k=%d focus units jointly over full alphabets, %d skeletons, %d elements per slice, every permutation of field visits, Parse and Validate", k, len(coreSkeletons(tier)), e)
+			return thoroughPrefix(tier) + fmt.Sprintf("k=%d focus units jointly over full alphabets, %d skeletons, %d elements per slice, every permutation of field visits, Parse and Validate", k, len(coreSkeletons(tier)), e)
 		},
 		Assumptions: []string{
 			"oracle is spec-free: predicates of the declared tests are re-evaluated on the destination by code that does not call zog",
